@@ -364,6 +364,13 @@ fn run_hist(args: &[&str]) -> Option<String> {
     }
     // all buffers must outlive the value: place each at a guard page
     let bufs: Vec<mem::ByteArena> = calls.iter().map(|(_, _, b)| mem::ByteArena::new(b, mem::Place::EndGuard, 0)).collect();
+    // one separate array per call for the uninit entry point (entry code 3); they outlive the value
+    let uarenas: Vec<mem::HeaderArena> = (0..=n).map(|_| mem::HeaderArena::new(cap, mem::Place::EndGuard)).collect();
+    let uptrs: Vec<*mut u8> = uarenas.iter().map(|u| u.base() as *mut u8).collect();
+    /// SAFETY: `p` is the base of a live arena of `cap` slots that is used by one call only
+    unsafe fn uslice<'a, 'b>(p: *mut u8, cap: usize) -> &'a mut [MaybeUninit<Header<'b>>] {
+        std::slice::from_raw_parts_mut(p as *mut MaybeUninit<Header<'b>>, cap)
+    }
     let mut a = mem::HeaderArena::new(cap, mem::Place::EndGuard);
     for k in 0..cap {
         a.slots_mut()[k] = MaybeUninit::new(httparse::EMPTY_HEADER);
@@ -378,13 +385,15 @@ fn run_hist(args: &[&str]) -> Option<String> {
             let mut req = Request::new(init);
             for i in 0..n {
                 let cfg = mk_config(calls[i].1);
-                let r = if calls[i].0 == 0 { req.parse(bufs[i].bytes()) } else { cfg.parse_request(&mut req, bufs[i].bytes()) };
+                // SAFETY: each uninit array is used by one call only and outlives `req`
+                let r = if calls[i].0 == 0 { req.parse(bufs[i].bytes()) } else if calls[i].0 == 3 { cfg.parse_request_with_uninit_headers(&mut req, bufs[i].bytes(), unsafe { uslice(uptrs[i], cap) }) } else { cfg.parse_request(&mut req, bufs[i].bytes()) };
                 out.push_str(&format!("{};", status_str(&r)));
             }
             view_before = req.headers.len();
             let cfg = mk_config(calls[n].1);
             let b = bufs[n].bytes();
-            let r = if calls[n].0 == 0 { req.parse(b) } else { cfg.parse_request(&mut req, b) };
+            // SAFETY: as above
+            let r = if calls[n].0 == 0 { req.parse(b) } else if calls[n].0 == 3 { cfg.parse_request_with_uninit_headers(&mut req, b, unsafe { uslice(uptrs[n], cap) }) } else { cfg.parse_request(&mut req, b) };
             let hs = if let Ok(Status::Complete(_)) = r { hdrs_str(req.headers, b) } else { "-".to_string() };
             probe_obs = format!("{} m={} p={} v={} view={} h={}", status_str(&r), osl(req.method, b), osl(req.path, b), onum(req.version), req.headers.len(), hs);
         }
@@ -394,25 +403,29 @@ fn run_hist(args: &[&str]) -> Option<String> {
             let mut resp = Response::new(init);
             for i in 0..n {
                 let cfg = mk_config(calls[i].1);
-                let r = if calls[i].0 == 0 { resp.parse(bufs[i].bytes()) } else { cfg.parse_response(&mut resp, bufs[i].bytes()) };
+                // SAFETY: as above
+                let r = if calls[i].0 == 0 { resp.parse(bufs[i].bytes()) } else if calls[i].0 == 3 { cfg.parse_response_with_uninit_headers(&mut resp, bufs[i].bytes(), unsafe { uslice(uptrs[i], cap) }) } else { cfg.parse_response(&mut resp, bufs[i].bytes()) };
                 out.push_str(&format!("{};", status_str(&r)));
             }
             view_before = resp.headers.len();
             let cfg = mk_config(calls[n].1);
             let b = bufs[n].bytes();
-            let r = if calls[n].0 == 0 { resp.parse(b) } else { cfg.parse_response(&mut resp, b) };
+            // SAFETY: as above
+            let r = if calls[n].0 == 0 { resp.parse(b) } else if calls[n].0 == 3 { cfg.parse_response_with_uninit_headers(&mut resp, b, unsafe { uslice(uptrs[n], cap) }) } else { cfg.parse_response(&mut resp, b) };
             let hs = if let Ok(Status::Complete(_)) = r { hdrs_str(resp.headers, b) } else { "-".to_string() };
             probe_obs = format!("{} v={} c={} r={} view={} h={}", status_str(&r), onum(resp.version), onum(resp.code), osl(resp.reason, b), resp.headers.len(), hs);
         }
         _ => return None,
     }
     // fresh value, array of length `view_before`
-    let e = if calls[n].0 == 0 { Entry::Plain } else { Entry::Cfg };
+    let e = if calls[n].0 == 0 { Entry::Plain } else if calls[n].0 == 3 { Entry::CfgUninit } else { Entry::Cfg };
+    // (for the uninit entry point the capacity that matters is that of the array handed in)
+    let (facap, fucap) = if calls[n].0 == 3 { (0, cap) } else { (view_before, 0) };
     // the fresh value gets what a real caller gives it: an array of EMPTY_HEADER
     FILL_EMPTY.store(true, std::sync::atomic::Ordering::Relaxed);
     let fresh = match *kind {
-        "req" => run_request(e, calls[n].1, bufs[n].bytes(), view_before, 0, mem::Place::EndGuard),
-        _ => run_response(e, calls[n].1, bufs[n].bytes(), view_before, 0, mem::Place::EndGuard),
+        "req" => run_request(e, calls[n].1, bufs[n].bytes(), facap, fucap, mem::Place::EndGuard),
+        _ => run_response(e, calls[n].1, bufs[n].bytes(), facap, fucap, mem::Place::EndGuard),
     };
     FILL_EMPTY.store(false, std::sync::atomic::Ordering::Relaxed);
     Some(format!("{} ;; {} ;; pre={} vb={}", probe_obs, fresh, if out.is_empty() { "-" } else { &out }, view_before))
@@ -615,6 +628,10 @@ fn run_case(line: &str) -> Option<String> {
     }
 }
 
+extern "C" {
+    fn alarm(seconds: u32) -> u32;
+}
+
 fn cmd_run() -> io::Result<()> {
     panic::set_hook(Box::new(|_| {}));
     let stdin = io::stdin();
@@ -631,7 +648,13 @@ fn cmd_run() -> io::Result<()> {
         if l.is_empty() || l.starts_with('#') {
             continue;
         }
+        // watchdog: a case that does not return within 20 s kills the worker with SIGALRM; the
+        // orchestrator attributes the death to exactly this case (C01: termination)
+        // SAFETY: plain libc call
+        unsafe { alarm(20) };
         let res = panic::catch_unwind(|| run_case(l));
+        // SAFETY: plain libc call
+        unsafe { alarm(0) };
         let obs = match res {
             Ok(Some(o)) => o,
             Ok(None) => "BADCASE".to_string(),
